@@ -3,6 +3,7 @@ import Otel.C15.Model
 import Otel.C15.Spec
 import Otel.C15.Gate
 import Otel.C15.Lag
+import Otel.C15.Reent
 open Otel Otel.Wire Otel.C15
 
 /-! Driver of C15. Line kinds: see harness/bb/c15life/c15_test.go (header). -/
@@ -88,7 +89,7 @@ def splitBang (l : List String) : List (List String) :=
 /-! ### trace provider -/
 /-- `bn+bq`: the part after `+` names constructor options of the harness (blocking, small queue, short timeout);
 they do not change the model kind -/
-def baseKind (s : String) : String := (s.splitOn "+").headD s
+def baseKind (s : String) : String := (((s.splitOn "@").headD s).splitOn "+").headD s
 
 def parsePKind (s : String) : Option TP.PKind :=
   match baseKind s with
@@ -365,7 +366,8 @@ def lpLine (kindsS : String) (opToks obsToksAll : List String) : Option Verdict 
          model := " ".intercalate (renderLP n (fun _ => {}) model) }
 
 /-! ### meter provider -/
-def parseRKind : String → Option MP.RKind
+def parseRKind (s : String) : Option MP.RKind :=
+  match baseKind s with
   | "m" => some .manual | "p" => some .periodic | _ => none
 
 /-- choice of a ForceFlush with a done context, read off the observation: for a live reader the code is
@@ -469,6 +471,92 @@ def mpLine (kindsS : String) (opToks obsToksAll : List String) : Option Verdict 
          branches := if br.isEmpty then "-" else ",".intercalate br,
          model := " ".intercalate (renderMP n (fun _ => {}) model) }
 
+/-! ### re-entrant user callbacks (`rtp`, `rlp`, `rmp`) -/
+def parseAct : String → Option Reent.Act
+  | "sp" => some .sp | "ff" => some .ff | _ => none
+
+/-- `sr@s=sp@x=ff` → hooks of the component -/
+def parseHook (k : String) : Option Reent.Hook :=
+  ((k.splitOn "@").drop 1).foldlM (fun (h : Reent.Hook) (t : String) =>
+    match t.splitOn "=" with
+    | [c, a] => do
+      let a ← parseAct a
+      match c with
+      | "a" => some { h with a := some a } | "e" => some { h with e := some a }
+      | "f" => some { h with f := some a } | "s" => some { h with s := some a }
+      | "x" => some { h with x := some a } | _ => none
+    | _ => none) {}
+
+def rtpLine (kindsS : String) (opToks obsToksAll : List String) : Option Verdict := do
+  let kinds ← parseKinds parsePKind kindsS
+  let hooks ← (if kindsS == "-" then some [] else (kindsS.splitOn ",").mapM parseHook)
+  let hk : Nat → Reent.Hook := fun i => hooks.getD i {}
+  if obsToksAll.any (fun t => t == "panic" || t == "hang") then
+    return { agree := false, spec := "FAIL:crash", nontrivial := true,
+             branches := if obsToksAll.contains "hang" then "blocks-forever" else "crash", model := "-" }
+  let (obsToks, settleTok) := splitSettle obsToksAll
+  let raw ← obsToks.mapM parseObs
+  let settle ← match settleTok with | some t => (parseObs t).map some | none => some none
+  -- re-entrant scripts use contexts without a deadline or with a far one only
+  let ops ← (zipOpt opToks raw).mapM fun (t, o) => parseTPOp t o
+  if ops.any (fun | .shutdown c _ => c.done | .flush c => c.done | _ => false) then none
+  let n := kinds.length
+  let obs := tpObs (fun _ => {}) raw
+  let model := Reent.rrun kinds hk ops
+  let settleQuiet := match settle with | some (_, ds) => ds.isEmpty | none => true
+  let agree := model.length == obs.length && settleQuiet &&
+    (model.zip obs).all fun (m, o) => m.res == o.res && snapEq n m.snap o.snap
+  let fails := (Reent.rcheck kinds ops obs).or { o := !settleQuiet, t := settle.isNone }
+  let reent := (model.zip (TP.run kinds ops)).any fun (m, p) => !snapEq n m.snap p.snap
+  let br := dedup (tpBranches (TP.init kinds) ops ++ (if reent then ["reentrant-effect"] else []))
+  pure { agree := agree, spec := if fails.any then "FAIL:" ++ failTags fails else "ok",
+         nontrivial := reent,
+         branches := if br.isEmpty then "-" else ",".intercalate br,
+         model := " ".intercalate (renderTP n (fun _ => {}) model) }
+
+/-- re-entrant log script: history oracle only (every call returned, exactly-once Shutdown counts, results) -/
+def rlpLine (kindsS : String) (opToks obsToksAll : List String) : Option Verdict := do
+  let kinds ← parseKinds parseLKind kindsS
+  if obsToksAll.any (fun t => t == "panic" || t == "hang") then
+    return { agree := false, spec := "FAIL:crash", nontrivial := true,
+             branches := if obsToksAll.contains "hang" then "blocks-forever" else "crash", model := "-" }
+  let (obsToks, settleTok) := splitSettle obsToksAll
+  let raw ← (obsToks ++ settleTok.toList).mapM parseObs
+  let ops ← (zipOpt opToks raw).mapM fun (t, o) => parseLPOp t o
+  let obs := lpObs (fun _ => {}) raw
+  let rec go (r : Spec.LP.Ref) (prev : Nat → Cnt) : List LP.Op → List LP.Obs → Spec.Fails
+    | op :: ops, o :: obs =>
+      let c := Spec.LP.checkStep kinds r op prev o.snap o.res
+      ({ o := c.o, a := !Spec.LP.resOK kinds r op o.res, t := c.t } : Spec.Fails).or
+        (go (Spec.LP.refStep r op o.res) o.snap ops obs)
+    | _, _ => Spec.Fails.none
+  let fails := (go {} (fun _ => {}) ops obs).or { t := settleTok.isNone || obsToks.length != opToks.length }
+  pure { agree := true, spec := if fails.any then "FAIL:" ++ failTags fails else "ok",
+         nontrivial := raw.any (fun (_, ds) => !ds.isEmpty), branches := "reentrant", model := "-" }
+
+def rmpLine (kindsS : String) (opToks obsToksAll : List String) : Option Verdict := do
+  let kinds ← parseKinds parseRKind kindsS
+  if obsToksAll.any (fun t => t == "panic" || t == "hang") then
+    return { agree := false, spec := "FAIL:crash", nontrivial := true,
+             branches := if obsToksAll.contains "hang" then "blocks-forever" else "crash", model := "-" }
+  let (obsToks, settleTok) := splitSettle obsToksAll
+  let raw ← (obsToks ++ settleTok.toList).mapM parseObs
+  let steps ← parseMPSteps kinds false (zipOpt opToks raw)
+  let ops := steps.map (·.2)
+  let obs := mpObs (fun _ => {}) raw
+  let rec go (r : Spec.MP.Ref) (prev : Nat → Cnt) : List MP.Op → List MP.Obs → Spec.Fails
+    | op :: ops, o :: obs =>
+      let c := Spec.MP.checkStep kinds r op prev o.snap o.res
+      -- the collected total includes what the hooks recorded: only its class is judged
+      let resok := match op, o.res with
+        | .collect i, .val _ => decide (i < kinds.length) && !r.shut
+        | _, res => Spec.MP.resOK kinds r op res
+      ({ o := c.o, a := !resok, t := c.t } : Spec.Fails).or (go (Spec.MP.refStep r op o.res) o.snap ops obs)
+    | _, _ => Spec.Fails.none
+  let fails := (go {} (fun _ => {}) ops obs).or { t := settleTok.isNone || obsToks.length != opToks.length }
+  pure { agree := true, spec := if fails.any then "FAIL:" ++ failTags fails else "ok",
+         nontrivial := raw.any (fun (_, ds) => !ds.isEmpty), branches := "reentrant", model := "-" }
+
 /-! ### concurrent variant: judged by the history oracle only
 `<prefix> ! <callers> ! <suffix>`; the suffix starts with `sd:b`.  Requirements: no crash; every caller's
 Shutdown/ForceFlush answers nil (metric: exactly one Shutdown over the whole line answers nil, all others the
@@ -526,6 +614,9 @@ def stepLine (_ : Unit) (toks : List String) : Unit × Option Verdict :=
   match inp with
   | "tp" :: _ :: kinds :: _ :: "|" :: ops => ((), tpLine kinds ops obs)
   | "gtp" :: _ :: kinds :: "|" :: ops => ((), gtpLine kinds ops obs)
+  | "rtp" :: _ :: kinds :: "|" :: ops => ((), rtpLine kinds ops obs)
+  | "rlp" :: _ :: kinds :: "|" :: ops => ((), rlpLine kinds ops obs)
+  | "rmp" :: _ :: kinds :: "|" :: ops => ((), rmpLine kinds ops obs)
   | "lp" :: _ :: kinds :: "|" :: ops => ((), lpLine kinds ops obs)
   | "mp" :: _ :: kinds :: "|" :: ops => ((), mpLine kinds ops obs)
   | "ctp" :: _ :: kinds :: "|" :: ops => ((), concLine "ctp" kinds ops obs)
